@@ -252,6 +252,7 @@ func specMutations(f *Func) []Func {
 	add(func(c *Func) bool { ok := c.ErrAt > 0; c.ErrAt = 0; return ok })
 	add(func(c *Func) bool { ok := c.ErrExtra > 0; c.ErrExtra = 0; return ok })
 	add(func(c *Func) bool { ok := c.Reenter; c.Reenter = false; return ok })
+	add(func(c *Func) bool { ok := c.ThenProvide > 0; c.ThenProvide = 0; return ok })
 	add(func(c *Func) bool {
 		ok := c.HasErr
 		c.HasErr = false
@@ -383,6 +384,18 @@ func Compact(h *History) *History {
 			funcs = append(funcs, f)
 		}
 		o.Fn = remap[o.Fn]
+	}
+	// constructors registered from inside an invoked function travel with it
+	for i := 0; i < len(funcs); i++ {
+		if t := funcs[i].ThenProvide - 1; t >= 0 && t < len(h.Funcs) {
+			if _, ok := remap[t]; !ok {
+				remap[t] = len(funcs)
+				f := deepCopyFunc(&h.Funcs[t])
+				f.ID = len(funcs)
+				funcs = append(funcs, f)
+			}
+			funcs[i].ThenProvide = remap[t] + 1
+		}
 	}
 	var faults []Fault
 	for _, f := range c.Faults {
